@@ -91,16 +91,21 @@ def tryWriteReader (s : Slot) (r : Reader) (filledSlot : Bool) : Slot × Reader 
     -- we've already filled this slot so skip the entire thing on the reader
     (s, r.skipUntil s.endAlloc, none, filledSlot)
 
+/-- what the write loops read from the cursors: `start_offset` and `final_offset` -/
+structure Ctx where
+  start : Nat
+  finalOffset : Option Nat
+
 /-- `Reassembler::allocate_slot` -/
-def allocateSlot (b : SlotBuf) (r : Reader) : Slot :=
+def allocateSlot (c : Ctx) (r : Reader) : Slot :=
   let start := r.off
   let size := allocationSize start
   let offset := alignOffset start size
   -- don't allocate for data we've already consumed
   let (offset, size) :=
-    if b.start > offset then (b.start, size - (b.start - offset)) else (offset, size)
+    if c.start > offset then (c.start, size - (c.start - offset)) else (offset, size)
   let size :=
-    match b.finalOffset with
+    match c.finalOffset with
     | some f =>
       if f - r.off - r.data.length = 0 then
         let cand := (start - offset) + r.data.length
@@ -113,46 +118,45 @@ def allocateSlot (b : SlotBuf) (r : Reader) : Slot :=
 def insertAt (l : List Slot) (idx : Nat) (s : Slot) : List Slot := l.take idx ++ s :: l.drop idx
 
 /-- `write_reader_with_alloc` -/
-def writeWithAlloc : Nat → SlotBuf → Reader → Nat → Bool → Option (SlotBuf × Reader × Nat × Bool)
+def writeWithAlloc (c : Ctx) : Nat → List Slot → Reader → Nat → Bool → Option (List Slot × Reader × Nat × Bool)
   | 0, _, _, _, _ => none
-  | fuel + 1, b, r, idx, fs =>
-    if r.isEmpty then some (b, r, idx, fs)
+  | fuel + 1, slots, r, idx, fs =>
+    if r.isEmpty then some (slots, r, idx, fs)
     else
-      let stop : Bool := match b.slots[idx]? with
+      let stop : Bool := match slots[idx]? with
         | some next => !decide (next.start > r.off)
         | none => false
-      if stop then some (b, r, idx, fs)
+      if stop then some (slots, r, idx, fs)
       else
-        let slot := allocateSlot b r
+        let slot := allocateSlot c r
         let (slot, r, filled, fs) := tryWriteReader slot r fs
-        let slots := insertAt b.slots idx slot
+        let slots := insertAt slots idx slot
         let idx := idx + 1
         let (slots, idx) := match filled with
           | some f => (insertAt slots idx f, idx + 1)
           | none => (slots, idx)
-        writeWithAlloc fuel { b with slots := slots } r idx fs
+        writeWithAlloc c fuel slots r idx fs
 
 /-- the `while` loop of `write_reader_at` -/
-def writeAtLoop : Nat → SlotBuf → Reader → Nat → Bool → Option (SlotBuf × Nat × Bool)
+def writeAtLoop (c : Ctx) : Nat → List Slot → Reader → Nat → Bool → Option (List Slot × Nat × Bool)
   | 0, _, _, _, _ => none
-  | fuel + 1, b, r, idx, fs =>
-    if r.isEmpty then some (b, idx, fs)
+  | fuel + 1, slots, r, idx, fs =>
+    if r.isEmpty then some (slots, idx, fs)
     else
-      match b.slots[idx]? with
+      match slots[idx]? with
       | none => none
       | some slot =>
         let (slot, r, filled, fs) := tryWriteReader slot r fs
-        let slots := b.slots.set idx slot
+        let slots := slots.set idx slot
         let idx := idx + 1
         let (slots, idx) := match filled with
           | some f => (insertAt slots idx f, idx + 1)
           | none => (slots, idx)
-        let b := { b with slots := slots }
-        if r.isEmpty then some (b, idx, fs)
+        if r.isEmpty then some (slots, idx, fs)
         else
-          match writeWithAlloc (fuel + 1) b r idx fs with
+          match writeWithAlloc c (fuel + 1) slots r idx fs with
           | none => none
-          | some (b, r, idx, fs) => writeAtLoop fuel b r idx fs
+          | some (slots, r, idx, fs) => writeAtLoop c fuel slots r idx fs
 
 /-- `unsplit_range`, indices visited from `hi - 1` down to `lo` -/
 def unsplitRange (slots : List Slot) (lo : Nat) : Nat → List Slot
@@ -170,11 +174,11 @@ def unsplitRange (slots : List Slot) (lo : Nat) : Nat → List Slot
     unsplitRange slots lo n
 
 /-- `write_reader_at` -/
-def writeAt (b : SlotBuf) (r : Reader) (idx : Nat) : Option SlotBuf :=
-  match writeAtLoop (r.data.length + b.slots.length + 2) b r idx false with
+def writeAt (c : Ctx) (slots : List Slot) (r : Reader) (idx : Nat) : Option (List Slot) :=
+  match writeAtLoop c (r.data.length + slots.length + 2) slots r idx false with
   | none => none
-  | some (b, idx', fs) =>
-    if fs then some { b with slots := unsplitRange b.slots idx (idx' - idx) } else some b
+  | some (slots, idx', fs) =>
+    if fs then some (unsplitRange slots idx (idx' - idx)) else some slots
 
 /-- index of the last slot with `start <= offset` (the search from the back) -/
 def selectSlot (slots : List Slot) (off : Nat) : Option Nat :=
@@ -184,19 +188,18 @@ def selectSlot (slots : List Slot) (off : Nat) : Option Nat :=
   go slots 0 none
 
 /-- `write_reader_impl` -/
-def writeImpl (b : SlotBuf) (r : Reader) : Option SlotBuf :=
-  if r.isEmpty then some b
+def writeImpl (c : Ctx) (slots : List Slot) (r : Reader) : Option (List Slot) :=
+  if r.isEmpty then some slots
   else
-    match selectSlot b.slots r.off with
-    | some idx => writeAt b r idx
+    match selectSlot slots r.off with
+    | some idx => writeAt c slots r idx
     | none =>
-      let slot := allocateSlot b r
+      let slot := allocateSlot c r
       let (slot, r, filled, _) := tryWriteReader slot r true
       let (slots, idx) := match filled with
-        | some f => (slot :: f :: b.slots, 1)
-        | none => (slot :: b.slots, 0)
-      let b := { b with slots := slots }
-      if r.isEmpty then some b else writeAt b r idx
+        | some f => (slot :: f :: slots, 1)
+        | none => (slot :: slots, 0)
+      if r.isEmpty then some slots else writeAt c slots r idx
 
 /-- `write_at` / `write_at_fin`; `none` = the model ran into a state the code `assume!`s away -/
 def write (b : SlotBuf) (off : Nat) (data : List Nat) (fin : Bool) : Option (Except Err SlotBuf) :=
@@ -207,32 +210,42 @@ def write (b : SlotBuf) (off : Nat) (data : List Nat) (fin : Bool) : Option (Exc
     match handleFin b.finalOffset b.maxRecv r.off r.data.length readerFinal with
     | .error e => some (.error e)
     | .ok (fs, mr) =>
-      match writeImpl { b with finalOffset := fs, maxRecv := mr } r with
-      | some b' => some (.ok b')
+      -- the cursors are updated before `write_reader_impl` runs (it sees the new final offset)
+      match writeImpl ⟨b.start, fs⟩ b.slots r with
+      | some slots => some (.ok { b with finalOffset := fs, maxRecv := mr, slots := slots })
       | none => none
+
+/-- `final_size.is_some_and(|f| f <= slot.end_allocated() && watermark >= slot.buffered_len())` -/
+def finalHere (finalOffset : Option Nat) (slot : Slot) (watermark : Option Nat) : Bool :=
+  match finalOffset with
+  | some f =>
+    decide (f ≤ slot.endAlloc) &&
+      (match watermark with
+       | some w => decide (w ≥ slot.data.length)
+       | none => true)
+  | none => false
+
+/-- length handed out by `slot.read_chunk(watermark)` (`BytesMut::read_chunk`) -/
+def readN (slot : Slot) (watermark : Option Nat) : Nat :=
+  match watermark with
+  | some w => min w slot.data.length
+  | none => slot.data.length
 
 /-- `Storage::read_chunk` of the reassembler: one chunk -/
 def readChunk (b : SlotBuf) (watermark : Option Nat) : SlotBuf × List Nat :=
   match b.slots with
   | [] => (b, [])
   | slot :: rest =>
+    -- make sure the slot has some data
     if !slot.isOccupied b.start then (b, [])
+    else if finalHere b.finalOffset slot watermark then
+      -- `slot.consume()`: all data, `start = end` so `should_drop()` holds and the slot is popped
+      ({ b with slots := rest, start := b.start + slot.data.length }, slot.data)
     else
-      let wGe (n : Nat) : Bool := match watermark with
-        | some w => w ≥ n
-        | none => true
-      let finalHere : Bool := match b.finalOffset with
-        | some f => f ≤ slot.endAlloc && wGe slot.data.length
-        | none => false
-      let (slot, chunk) :=
-        if finalHere then ({ slot with start := slot.endAlloc, data := [] }, slot.data)
-        else
-          let n := match watermark with
-            | some w => min w slot.data.length
-            | none => slot.data.length
-          ({ slot with start := slot.start + n, data := slot.data.drop n }, slot.data.take n)
-      let slots := if slot.shouldDrop then rest else slot :: rest
-      ({ b with slots := slots, start := b.start + chunk.length }, chunk)
+      let n := readN slot watermark
+      let chunk := slot.data.take n
+      let slot' : Slot := { slot with start := slot.start + chunk.length, data := slot.data.drop n }
+      ({ b with slots := if slot'.shouldDrop then rest else slot' :: rest, start := b.start + chunk.length }, chunk)
 
 /-- the slot-clearing loop of `Reassembler::skip` -/
 def skipSlots (newStart : Nat) : List Slot → List Slot
